@@ -45,8 +45,9 @@ func waitsForPeer(call ssa.CallInstruction) string {
 	return ""
 }
 
-func checkCloseNoWait(c *Ctx, r *Report) {
-	rule := "C16/close-no-wait"
+func checkCloseNoWait(c *Ctx, r *Report) { checkCloseNoWaitAs(c, r, "C16/close-no-wait") }
+
+func checkCloseNoWaitAs(c *Ctx, r *Report, rule string) {
 	for _, impl := range []string{"System", "Standard", "Telnet"} {
 		fn := c.LookupFunc("transport", impl, "Close")
 		if fn == nil {
